@@ -112,11 +112,63 @@ def pmap(modname, fn, shards, procs=None):
         # defaults) must not leak from one shard into another
         with ctx.Pool(min(procs, len(shards)), maxtasksperchild=1) as pool:
             results = pool.map(_run_shard, [(modname, fn, s) for s in shards], chunksize=1)
-    for status, payload in results:
+    for (status, payload), shard in zip(results, shards):
         if status == "err":
             raise HarnessError(payload)
+        for v in payload.violations:          # remember where it was found (see reproduce())
+            if isinstance(v.get("witness"), dict):
+                v["witness"].setdefault("_shard", [modname, fn, shard])
         total.merge(payload)
     return total
+
+
+def _shard_sigs(args):
+    status, payload = _run_shard(args)
+    return [] if status == "err" else [v["sig"] for v in payload.violations]
+
+
+def reproduce(mod, v):
+    """A violation is reported only if it reproduces from its artefact: (1) the witness alone, on fresh
+    objects, twice; or, if the library keeps state between inputs (class-level containers, caches keyed on
+    content), (2) the shard that found it, re-run from scratch in a fresh process, reports the same
+    signature again.  -> "witness" | "shard" | None"""
+    w = v["witness"]
+    ok = True
+    for _ in range(2):
+        try:
+            r = mod.replay(w)
+        except Violation as r2:
+            r = r2
+        except Exception:
+            r = None
+            print(traceback.format_exc())
+        if not isinstance(r, Violation):
+            ok = False
+            break
+    if ok:
+        return "witness"
+    sh = w.get("_shard") if isinstance(w, dict) else None
+    if sh:
+        # a brand-new interpreter (this process has already run the witness and may carry the very state
+        # that is under suspicion)
+        import subprocess
+
+        r = subprocess.run([sys.executable, "-m", "mc", "--shard-sigs", json.dumps(sh), os.environ.get("VERIF_TIER_NOW", "quick")],
+                           cwd=env.VERIF, capture_output=True, text=True)
+        try:
+            sigs = json.loads(r.stdout.strip().splitlines()[-1])
+        except Exception:  # noqa: BLE001
+            sigs = []
+        if v["sig"] in sigs:
+            return "shard"
+    return None
+
+
+def _untuple(x):
+    """Shard descriptors survive a JSON round trip as lists; the shard functions expect tuples."""
+    if isinstance(x, list):
+        return tuple(_untuple(i) for i in x)
+    return x
 
 
 class HarnessError(Exception):
@@ -192,6 +244,19 @@ def main(argv):
     if len(argv) < 2:
         print("usage: check <Cnn> quick|thorough | <Cnn> --replay <file>")
         return 2
+    if argv[0] == "--shard-sigs":     # internal: re-run one shard from scratch, print the signatures it reports
+        env.setup()
+        sh = json.loads(argv[1])
+        os.environ["VERIF_TIER_NOW"] = argv[2] if len(argv) > 2 else "quick"
+        mod = importlib.import_module(sh[0])
+        for holder in (getattr(mod, sh[1], None), getattr(mod, "_shard", None)):
+            if holder is not None:
+                try:
+                    holder.tier = os.environ["VERIF_TIER_NOW"]
+                except Exception:  # noqa: BLE001
+                    pass
+        print(json.dumps(_shard_sigs((sh[0], sh[1], _untuple(sh[2])))))
+        return 0
     prop = argv[0].upper()
     env.setup()
     mod = importlib.import_module(f"mc.checks.{prop.lower()}")
@@ -204,6 +269,11 @@ def main(argv):
             res = v
         if isinstance(res, Violation):
             print(f"REPRODUCED property={prop} clause={res.clause} sig={res.sig}\n  {res.detail}")
+            return 1
+        how = reproduce(mod, {"witness": art["witness"], "sig": art["signature"]})
+        if how == "shard":
+            print(f"REPRODUCED property={prop} sig={art['signature']}\n  by re-running the shard that found it from scratch "
+                  f"(the library keeps state between inputs, the witness alone is not enough)")
             return 1
         print(f"not reproduced: property={prop} holds on this witness")
         return 0
@@ -221,19 +291,13 @@ def main(argv):
     findings = load_findings()
     new, known = [], []
     for v in acc.violations:
-        # determinism: the witness must reproduce from the artefact alone, twice
+        # determinism: the violation must reproduce from its artefact
         ok = True
         if hasattr(mod, "replay") and v["witness"] is not None:
-            for _ in range(2):
-                try:
-                    r = mod.replay(v["witness"])
-                except Violation as r2:
-                    r = r2
-                except Exception:
-                    r = None
-                    print(traceback.format_exc())
-                if not isinstance(r, Violation):
-                    ok = False
+            how = reproduce(mod, v)
+            ok = how is not None
+            if how == "shard":
+                v["detail"] += "  [reproduces only together with the inputs that precede it in its shard: the library keeps state between inputs]"
         if not ok:
             print(f"HARNESS-ERROR property={prop}: witness did not reproduce deterministically: {v['sig']}")
             write_evidence(prop, tier, acc, time.time() - t0, getattr(mod, "ASSUMPTIONS", []),
